@@ -83,6 +83,45 @@ proof fn lemma_first_at_char(c: Seq<VersionInfo>, e: EpochId)
     }
 }
 
+proof fn lemma_first_vis_char(c: Seq<VersionInfo>, e: EpochId, t: TxId)
+    ensures
+        -1 <= first_vis(c, e, t) < c.len(),
+        first_vis(c, e, t) >= 0 ==> vis_to(c[first_vis(c, e, t)], e, t),
+        forall|i: int| 0 <= i < c.len() && (first_vis(c, e, t) < 0 || i < first_vis(c, e, t)) ==> !vis_to(#[trigger] c[i], e, t),
+    decreases c.len()
+{
+    if c.len() > 0 && !vis_to(c[0], e, t) {
+        let s = c.subrange(1, c.len() as int);
+        lemma_first_vis_char(s, e, t);
+        assert forall|i: int| 0 <= i < c.len() && (first_vis(c, e, t) < 0 || i < first_vis(c, e, t)) implies !vis_to(#[trigger] c[i], e, t) by {
+            if i > 0 { assert(c[i] == s[i - 1]); }
+        }
+    }
+}
+/// the version a chain shows to a reader, as the property states it: the newest version the reader may see
+pub open spec fn shows_at<T>(c: Seq<Version<T>>, e: EpochId, r: Option<&T>) -> bool {
+    match r {
+        Some(d) => first_at(infos(c), e) >= 0 && *d == c[first_at(infos(c), e)].data,
+        None => first_at(infos(c), e) < 0,
+    }
+}
+pub open spec fn shows_to<T>(c: Seq<Version<T>>, e: EpochId, t: TxId, r: Option<&T>) -> bool {
+    match r {
+        Some(d) => first_vis(infos(c), e, t) >= 0 && *d == c[first_vis(infos(c), e, t)].data,
+        None => first_vis(infos(c), e, t) < 0,
+    }
+}
+/// rollback keeps exactly the other transactions' versions (ONE closure term for every filter below)
+pub open spec fn not_by<T>(tx: TxId) -> spec_fn(Version<T>) -> bool { |v: Version<T>| v.info.created_by != tx }
+
+// std: VecDeque::retain keeps, in order, exactly the elements the predicate accepts (phrased without naming the closure)
+pub assume_specification<T, A: std::alloc::Allocator, F: FnMut(&T) -> bool>[ VecDeque::<T, A>::retain ](v: &mut VecDeque<T, A>, f: F)
+    requires forall|i: int| 0 <= i < old(v)@.len() ==> #[trigger] f.requires((&old(v)@[i],)),
+    ensures forall|p: spec_fn(T) -> bool|
+                (forall|i: int| 0 <= i < old(v)@.len() ==> (f.ensures((&old(v)@[i],), true) ==> #[trigger] p(old(v)@[i])) && (f.ensures((&old(v)@[i],), false) ==> !p(old(v)@[i])))
+                ==> final(v)@ == #[trigger] old(v)@.filter(p),
+;
+
 // ---- snapshot stability (C01: repeatable reads, no dirty / phantom versions) ------------------
 /// A foreign version stamped after the reader's epoch, pushed in front, does not change what the reader sees.
 proof fn lemma_stable_add(c: Seq<VersionInfo>, nv: VersionInfo, e: EpochId, t: TxId)
@@ -167,6 +206,12 @@ impl<T> VersionChain<T> {
     @@VersionChain::add_version@@
     @@VersionChain::version_count@@
     @@VersionChain::gc@@
+    @@VersionChain::visible_at@@
+    @@VersionChain::visible_to@@
+    @@VersionChain::modified_by@@
+    @@VersionChain::has_conflict@@
+    @@VersionChain::mark_deleted@@
+    @@VersionChain::remove_versions_by@@
 }
 
 } // verus!
@@ -180,6 +225,7 @@ def build(repo):
     u.item(ID, 'struct', 'EpochId').D1(keep_derive=keep)
     u.item(ID, 'struct', 'TxId').D1(keep_derive=keep)
     u.trust('assume_specification <TxId as PartialEq>::eq', 'derived PartialEq on a u64 newtype is structural equality')
+    u.trust('assume_specification VecDeque::retain', 'std: retain keeps, in order, exactly the elements the predicate accepts')
     u.trust('assume_specification VecDeque::is_empty', 'std: is_empty() == (len() == 0); vstd specifies len but not is_empty')
     f = u.method(ID, 'EpochId', 'new').D1().ret('r')
     f.ensures('field', 'r.0 == id')
@@ -233,8 +279,51 @@ def build(repo):
         ('first_old', 'forall|a: int| 0 <= a < i && (#[trigger] self.versions@[a]).info.created_epoch.0 < min_epoch.0'
                       ' && (forall|j: int| 0 <= j < a ==> (#[trigger] self.versions@[j]).info.created_epoch.0 >= min_epoch.0) ==> a < keep_count'),
     )
-    u.not_covered += ['VersionChain::{visible_at, visible_to, modified_by, has_conflict} (iter().find/any: unspecified in Verus) -> Kani bounded harnesses',
-                      'VersionChain::{mark_deleted (iter_mut), remove_versions_by (retain), get_mut (position)} -> Kani bounded harnesses',
+
+    # ---- chain search functions: unbounded (rules R11/R12/R13/R10 rewrite the adapter chains to the loops std defines them as) ----
+    f = u.method(MV, 'VersionChain', 'visible_at').D1().R11().ret('r').props('C01')
+    f.ensures('shows_first_visible', 'shows_at(self.versions@, epoch, r)')
+    L = f.loop(0).kind('for')
+    L.invariant('none_before', 'forall|j: int| 0 <= j < i__ ==> !vis_at(#[trigger] infos(self.versions@)[j], epoch)')
+    L.body_start('proof { lemma_first_at_char(infos(self.versions@), epoch); assert(infos(self.versions@)[i__ as int] == self.versions@[i__ as int].info); }')
+    L.after('proof { lemma_first_at_char(infos(self.versions@), epoch); }')
+
+    f = u.method(MV, 'VersionChain', 'visible_to').D1().R11().ret('r').props('C01')
+    f.ensures('shows_first_visible', 'shows_to(self.versions@, epoch, tx, r)')
+    L = f.loop(0).kind('for')
+    L.invariant('none_before', 'forall|j: int| 0 <= j < i__ ==> !vis_to(#[trigger] infos(self.versions@)[j], epoch, tx)')
+    L.body_start('proof { lemma_first_vis_char(infos(self.versions@), epoch, tx); assert(infos(self.versions@)[i__ as int] == self.versions@[i__ as int].info); }')
+    L.after('proof { lemma_first_vis_char(infos(self.versions@), epoch, tx); }')
+
+    f = u.method(MV, 'VersionChain', 'modified_by').D1().R12().ret('r').props('C01', 'C02')
+    f.ensures('exists', 'r == exists|j: int| 0 <= j < self.versions@.len() && (#[trigger] self.versions@[j]).info.created_by == tx')
+    f.loop(0).kind('for').invariant('none_before', 'forall|j: int| 0 <= j < i__ ==> (#[trigger] self.versions@[j]).info.created_by != tx')
+
+    f = u.method(MV, 'VersionChain', 'has_conflict').D1().R12().ret('r').props('C01', 'C03')
+    f.ensures('exists', 'r == exists|j: int| 0 <= j < self.versions@.len() && (#[trigger] self.versions@[j]).info.created_by != our_tx && self.versions@[j].info.created_epoch.0 > start_epoch.0')
+    f.loop(0).kind('for').invariant('none_before', 'forall|j: int| 0 <= j < i__ ==> !((#[trigger] self.versions@[j]).info.created_by != our_tx && self.versions@[j].info.created_epoch.0 > start_epoch.0)')
+
+    f = u.method(MV, 'VersionChain', 'mark_deleted').D1().R13().ret('r').props('C01', 'C02')
+    f.ensures('len', 'final(self).versions@.len() == old(self).versions@.len()')
+    f.ensures('marks_first_live', '''r ==> exists|k: int| 0 <= k < old(self).versions@.len() && {
+                &&& (#[trigger] old(self).versions@[k]).info.deleted_epoch is None
+                &&& forall|j: int| 0 <= j < k ==> (#[trigger] old(self).versions@[j]).info.deleted_epoch is Some
+                &&& final(self).versions@[k].info.deleted_epoch == Some(delete_epoch)
+                &&& final(self).versions@[k].info.created_epoch == old(self).versions@[k].info.created_epoch
+                &&& final(self).versions@[k].info.created_by == old(self).versions@[k].info.created_by
+                &&& final(self).versions@[k].data == old(self).versions@[k].data
+                &&& forall|j: int| 0 <= j < old(self).versions@.len() && j != k ==> final(self).versions@[j] == #[trigger] old(self).versions@[j]
+            }''')
+    f.ensures('nothing_live', '!r ==> final(self).versions@ == old(self).versions@ && forall|j: int| 0 <= j < old(self).versions@.len() ==> (#[trigger] old(self).versions@[j]).info.deleted_epoch is Some')
+    L = f.loop(0).kind('for')
+    L.invariants(('frame', 'self.versions@ == old(self).versions@'),
+                 ('none_before', 'forall|j: int| 0 <= j < i__ ==> (#[trigger] self.versions@[j]).info.deleted_epoch is Some'))
+
+    f = u.method(MV, 'VersionChain', 'remove_versions_by').D1().props('C02')
+    f.R10('retain', '&Version<T>', lambda i: 'ensures /*@mvcc::VersionChain::remove_versions_by::closure#keeps_other_transactions*/ r == (v.info.created_by != tx),')
+    f.ensures('whole_view', 'final(self).versions@ == old(self).versions@.filter(not_by::<T>(tx))', ['C02'])
+    f.body_end('proof { assert(self.versions@ == old(self).versions@.filter(not_by::<T>(tx))); }')
+    u.not_covered += ['VersionChain::get_mut (position + generic Clone) -> Kani bounded harness only',
                       'tiered-storage VersionIndex (feature off in the default build)']
     u.assume('A1 (stamping discipline, NOT checked): callers stamp a version with an epoch greater than the start epoch of every concurrently running reader until the writer commits; '
              'session.rs / LpgStore sit behind locks + hash maps and are outside both verifiers. Reading them shows the engine stamps in-transaction writes with the START epoch and never restamps, '
